@@ -81,6 +81,31 @@ def n_for(tier, quick, thorough):
     return thorough if tier == "thorough" else quick
 
 
+def _ledger_tie_before_divergence(s, s2, ra, rb):
+    """Two runs that should agree differ: is there, in either of them, a ledger cell sitting at a rounding
+    midpoint (within 1e-6 quantum, `ties.py`) at or before the first step where they part?  The binary64
+    sum that decides such a tie depends on the position of the event's block, i.e. on the order of
+    addition; the property accepts either outcome of an exact tie."""
+    from harness import drive, ties
+    first = None
+    for name, x in (ra.get("records") or {}).items():
+        y = (rb.get("records") or {}).get(name)
+        if x is None or y is None or x.shape != y.shape or name == "limiting_inputs":
+            continue
+        xf, yf = np.nan_to_num(x.astype(float)), np.nan_to_num(y.astype(float))
+        sc = max(float(np.abs(xf).max()), 1e-300)
+        rows = np.flatnonzero((np.abs(xf - yf).reshape(xf.shape[0], -1) > 1e-9 * sc).any(axis=1))
+        if rows.size:
+            first = int(rows[0]) if first is None else min(first, int(rows[0]))
+    if first is None:
+        return False
+    for scn in (s, s2):
+        tr = drive.run(scn, tap=True)
+        if any(t <= first for (t, fam) in ties.tie_steps(tr) if fam in ("reb", "rec")):
+            return True
+    return False
+
+
 # ---------------------------------------------------------------------------
 def extra_c11(seed, tier, log):
     """Events passed at construction / as a list / one by one, and in any order, give the same records."""
@@ -110,6 +135,7 @@ def extra_c11(seed, tier, log):
     res = run_many(jobs)
     failures, scenarios, samples = [], {}, []
     base = {}
+    n_tie_perm = 0
     for (s, kind, x), tr in zip(meta, res):
         scenarios[s["id"]] = s
         if kind == "mode" and x == "add":
@@ -123,11 +149,15 @@ def extra_c11(seed, tier, log):
                                       sig=f"events-mode-{x}-differs", mode=x))
         if kind == "perm":
             diffs = compare_runs(b, tr, bitwise=False, tol=1e-9)
+            if diffs and _ledger_tie_before_divergence(s, x, b, tr):
+                n_tie_perm += 1
+                diffs = []
             if diffs:
                 scenarios[x["id"]] = x
                 failures.append(_fail("C11", s, f"outcome depends on the order in which events were added: {diffs[0]}",
                                       sig="event-order-dependence", permuted=x["id"]))
-    samples.append(dict(kind="events passed by ctor/list/add and in permuted order", scenarios=len(scns), runs=len(jobs)))
+    samples.append(dict(kind="events passed by ctor/list/add and in permuted order", scenarios=len(scns), runs=len(jobs),
+                        permutations_differing_only_after_a_ledger_rounding_tie=n_tie_perm))
     return dict(failures=failures, evaluations=len(jobs), samples=samples, scenarios=scenarios, obligations=[])
 
 
